@@ -48,6 +48,7 @@ def run(chk: Check, proj: Project) -> None:
                lambda sub: C07.s1a_publication(sub, proj, w_, C07.reach_set(proj, w_)), only=lambda o: "tag_parser" in o.construct or "template" in o.construct.lower() or "node" in o.construct.lower())
     s5_accessors(chk, proj, ["TEMPLATE_CACHE_SIZE"], rule="S5")
     s7_values_are_opaque(chk, proj)
+    s10_public_mutators_locked(chk, proj, m, cls, w_)
     from . import C01 as _C01
 
     chk.borrow("S9", "a cached Template renders like a fresh compilation on EVERY render: which fills a `{% component %}` body provides is discovered per render (a body with `{% if c %}{% fill %}..{% endif %}` provides a fill in one render and none in the next) - a 'no fills here' memo on the cached node list makes the second render fail or print the default (shared with C01-S11)",
@@ -507,6 +508,31 @@ def s7_values_are_opaque(chk: Check, proj: Project) -> None:
                "no test mentions the stored value" if not bad else
                f"`{short(bad[0])}` makes {fn.name}() behave differently for some values: set('a', v); set('a', None); get('a') returns v (the overwritten value) instead of None, has() stays False for a stored None - and a membership test routed through get() also refreshes recency, so the wrong entry is evicted next")
     chk.floor("S7", n, 3)
+
+
+def s10_public_mutators_locked(chk: Check, proj: Project, m, cls, w) -> None:
+    chk.rule("S10", "the LRU stays a dictionary plus a recency list that agree, under EVERY history of public calls from any thread: every public method that changes the dict or the list (set, get's move-to-front, clear) runs under the cache's lock - `clear()` is not 'atomic because dict.clear() is': it also re-links the sentinels, and run in the middle of another thread's eviction it makes that set() raise KeyError")
+    from . import C07 as _C07
+
+    locks = _C07._lock_attrs(cls)
+    if not locks:
+        chk.violated("S10", "util.cache:LRUCache:has-a-lock", m.loc(cls), "LRUCache owns no lock any more")
+        return
+    n = 0
+    for st in cls.body:
+        if not isinstance(st, ast.FunctionDef) or st.name.startswith("_"):
+            continue
+        muts = _C07._mutations(w, m, cls, st)
+        if muts < 1:
+            continue
+        n += 1
+        body = [s_ for s_ in st.body if not (isinstance(s_, ast.Expr) and isinstance(s_.value, ast.Constant))]
+        sites = [x for x in ast.walk(st) if (isinstance(x, (ast.Assign, ast.AugAssign, ast.Delete)) and any(isinstance(t, (ast.Attribute, ast.Subscript)) and "self" in norm(t) for t in (x.targets if isinstance(x, (ast.Assign, ast.Delete)) else [x.target]))) or (isinstance(x, ast.Call) and isinstance(x.func, ast.Attribute) and norm(x.func.value).startswith("self") and (x.func.attr.startswith("_") or x.func.attr in ("clear", "pop", "update", "setdefault", "popitem")))]
+        unlocked = [x for x in sites if not _C07._under_lock(x, locks)]
+        chk.ob("S10", f"util.cache:LRUCache.{st.name}:mutates-under-the-lock", m.loc(unlocked[0]) if unlocked else m.loc(st), not unlocked and bool(sites),
+               f"every state change of {st.name}() stands inside `with self.{sorted(locks)[0]}`" if not unlocked and sites else
+               f"`{short(unlocked[0]) if unlocked else st.name}` in the public method {st.name}() changes the cache outside `with self.{sorted(locks)[0]}`: run while another thread's set() is between choosing the victim and deleting it, the dict and the recency list stop agreeing and that set() raises KeyError")
+    chk.floor("S10", n, 2)
 
 
 MANIFEST = {
